@@ -92,9 +92,28 @@ def _case(draw):
         'preexisting': draw(st.booleans())}
 
 
+def _large_cases(th):
+    # one chunk whose waveforms take more than 16 MiB (thorough: 32 MiB) as float64
+    for i, (ns, nsw, nloc) in enumerate([(2300, 96, 10)] + ([(4400, 96, 10), (1100, 82, 24)]
+                                                              if th else [])):
+        n, nch = 5000, nloc + 2
+        lay = {'n': n, 'nch': nch, 'dtype': ['int16', 'float32'][i % 2], 'backend': 'flat',
+               'parts': [n], 'offset': 0, 'chunk': n + 1, 'salt': i}
+        spikes = sorted((k * 7919 + 13) % n for k in range(ns))
+        rows = [[(k + j) % nch if (k + j) % 5 else -1 for j in range(nloc)] for k in range(12)]
+        rows = [[(-1 if c in r[:j] else c) for j, c in enumerate(r)] for r in rows]
+        yield {'lay': lay, 'spikes': spikes, 'sdt': 'int64', 'nsw': nsw,
+               'chans': [rows[(k * 7) % 12] for k in range(ns)], 'common': [0, -1, 2],
+               'factor': 2.5, 'cache': bool(i % 2), 'queries': [[[0, ns - 1, ns // 2], [1, 3]]],
+               'id_step': 1, 'preexisting': False}
+
+
 def drivers(tier):
     th = tier == 'thorough'
-    ds = [dict(kind='hyp', name='routes', strategy=_case(), examples=200000 if th else 20000)]
+    ds = [dict(kind='enum', name='large', exhaustive=False,
+               bound='one chunk of waveforms beyond 16 MiB (thorough: 32 MiB)',
+               cases=lambda: _large_cases(th)),
+          dict(kind='hyp', name='routes', strategy=_case(), examples=200000 if th else 20000)]
     try:
         from . import c03_model
         ds.append(dict(kind='hyp', name='model', strategy=c03_model.strategy(),
@@ -172,7 +191,7 @@ def check(case):
                     for j, c in enumerate(ch):
                         if c in stored:
                             e = window(A, spikes[k], nsw, [c])[:, 0].astype(np.float64) * factor
-                            if not np.array_equal(out[i, :, j], e):
+                            if not np.array_equal(out[i, :, j], e, equal_nan=True):
                                 raise Violation(
                                     'store lookup differs from the raw window (spike %d, channel %d)'
                                     % (k, c), key='store', observed=out[i, :, j], expected=e)
@@ -221,4 +240,8 @@ def classify(case, info):
         labels.append('>1000-spikes')
     if case.get('preexisting'):
         labels.append('export-over-existing-file')
+    if lay.get('nonfinite'):
+        labels.append('non-finite-samples')
+    if len(case['spikes']) * case['nsw'] * len(case['chans'][0] if case['chans'] else []) * 8 > 2 ** 24:
+        labels.append('chunk-of-waveforms>16MiB')
     return labels, nt
